@@ -246,6 +246,35 @@ def real_bins_fn():
     return fn
 
 
+def chunk_query_fn(symbolic):
+    """collection built on a sequence chunk: strict/relaxed queries in chromosome coordinates"""
+
+    def body(w, s0, l0, s1, l1, qs, qe):
+        par = lambda: chunk_parent(w, 24, seq=(GENOME40 * 2)[:24])  # noqa: E731
+        kw = dict(s0=s0, l0=l0, s1=s1, l1=l1)
+        members = _members(("gene", "fc"), kw, par=par())
+        coll = AnnotationCollection(genes=[members[0]], feature_collections=[members[1]], sequence_name="chr1", parent_or_seq_chunk_parent=par())
+        conds = [coll.start == w, coll.end == w + 24]
+        for within in (True, False):
+            res = coll.query_by_position(qs, qe, completely_within=within)
+            got = sorted(c.guid for c in res.iter_children())
+            for i in range(2):
+                s, e = kw["s%d" % i], kw["s%d" % i] + kw["l%d" % i]
+                passes = AND(qs <= s, e <= qe) if within else AND(s < qe, qs < e)
+                conds.append(IFF((700 + i) in got, passes))
+            conds += [res.start == qs, res.end == qe]
+        return AND(*conds)
+
+    def fn(w, s0, l0, s1, l1, qs, qe):
+        if symbolic:
+            return body(w, s0, l0, s1, l1, qs, qe)
+        w, s0, l0, s1, l1, qs, qe = concretize(w, s0, l0, s1, l1, qs, qe)
+        with untraced():
+            return bool(body(w, s0, l0, s1, l1, qs, qe))
+
+    return fn
+
+
 def obligations(tier):
     out = []
     quick = tier == "quick"
@@ -305,6 +334,19 @@ def obligations(tier):
                             "bounds; re-querying is idempotent (REAL bins, real sequence re-chunking)" % ("strict" if strict else "relaxed"),
                        bounds="40-nt genome, 3 member layouts (native loop), every query range within [0,24] (realised)",
                        examples=[dict(qs=1, qe=20)]))
+    cpre = lambda w, s0, l0, s1, l1, qs, qe: (w >= 1 and w <= s0 and l0 >= 1 and s0 + l0 <= s1 and l1 >= 1 and s1 + l1 <= w + 24  # noqa: E731
+                                              and w <= qs and qs < qe and qe <= w + 24 and qs >= 1)
+    out.append(Obl("position_on_chunk_real_bins", chunk_query_fn(False), dict(w=int, s0=int, l0=int, s1=int, l1=int, qs=int, qe=int),
+                   lambda w, s0, l0, s1, l1, qs, qe: cpre(w, s0, l0, s1, l1, qs, qe) and 131066 <= w and w <= 131071 and s0 == w + 3 and l0 == 4
+                   and s1 == w + 10 and l1 == 5 and (qs - w) % 4 == 1 and (qe - w) % 5 == 0, budget=300, cost=40, stubs=dict(bins="real"),
+                   desc="collection on a sequence chunk whose chromosome offset straddles a 128 kb bin boundary: strict and relaxed queries (REAL bins) "
+                        "return exactly the members inside/overlapping the range", bounds="chunk offsets 131066..131071, 2 members, query grid (realised)",
+                   examples=[dict(w=131070, s0=131073, l0=4, s1=131080, l1=5, qs=131071, qe=131090)]))
+    if not quick:
+        out.append(Obl("position_on_chunk_symbolic", chunk_query_fn(True), dict(w=int, s0=int, l0=int, s1=int, l1=int, qs=int, qe=int), cpre,
+                       budget=3000, cost=900,
+                       desc="collection on a sequence chunk at a SYMBOLIC offset: strict and relaxed queries return exactly the specified members (bins contract stub)",
+                       bounds="chunk length 24, 2 members, unbounded symbolic offset/coordinates/query", examples=[dict(w=100, s0=103, l0=4, s1=110, l1=5, qs=101, qe=120)]))
     out.append(Obl("strict_query_real_bins_near_2pow29", real_bins_fn(), dict(k=int), lambda k: 0 <= k and k <= 4, budget=300, cost=20,
                    stubs=dict(bins="real"), consts=dict(),
                    desc="strict range query with the REAL bin pre-filter returns the contained members for query ends around 2^29",
